@@ -89,9 +89,11 @@ def run(pid):
     t = tier()
     rng = random.Random(seed())
     rep = Report("C18", "translation_validation")
-    srcs = [s["src"] for s in progs.corpus("C18", t, seed())]
+    pool = progs.corpus("C18", t, seed())
+    small = [s["src"] for s in pool if s["origin"] in ("small-int", "ExprGen-pair", "ExprGen-program")]
+    srcs = [s["src"] for s in pool if s["origin"] not in ("small-int", "ExprGen-pair", "ExprGen-program")]
     rng.shuffle(srcs)
-    srcs = srcs[: (400 if t == "quick" else 5000)]
+    srcs = small + srcs[: (600 if t == "quick" else 5000)]
     cases = [c for r in run_jobs(job, [{"srcs": srcs[k:k + 10]} for k in range(0, len(srcs), 10)]) for c in r if c["status"] == "ok"]
     for k, c in enumerate(cases):
         c["id"] = k
